@@ -149,6 +149,27 @@ void h_final_flush(void)
   { int ok = 1; for (i = 0; i < 256; i++) if (s->cmap[i] != was[i] && !(st >= 4 && i == (unsigned)(st - 4))) ok = 0; V_ASSERT(ok, "final flush: no other in-use mark changes"); }
 }
 
+
+/* ================= generate_prefix_code(): group (selector) count, number of tables tried, completion of the last group (C02, C08) ================= */
+#ifndef GC_NM_MAX
+#define GC_NM_MAX 70            /* symbols actually stored in the stand-in array; the counts below are checked for the full range */
+#endif
+void h_group_count(void)
+{
+  struct es_standin *s = &W;
+  V_IN(uint32_t, nm0);
+  V_IN(uint32_t, as0);
+  static uint16_t mtfv[GC_NM_MAX + GROUP_SIZE + 2];
+  uint32_t nm = nm0, as = as0, nt = 0, i;
+  V_ASSUME(nm0 >= 2 && nm0 <= GC_NM_MAX && as0 >= MIN_ALPHA_SIZE && as0 <= MAX_ALPHA_SIZE);
+  for (i = 0; i < GC_NM_MAX + GROUP_SIZE + 2; i++) mtfv[i] = 7;
+#include "src/extract/group_count.inc"
+  V_ASSERT(s->u.s.num_selectors == (nm0 + 49) / 50 && s->u.s.num_selectors * 50 >= nm0 && (s->u.s.num_selectors - 1) * 50 < nm0, "groups: one selector per started group of 50 symbols");
+  V_ASSERT(nt >= 1 && nt <= MAX_TREES, "tables tried: between 1 and 6");
+  { int ok = 1; for (i = 0; i < GC_NM_MAX + GROUP_SIZE + 2; i++) { uint16_t want = (i >= nm0 && i < s->u.s.num_selectors * 50) ? (uint16_t)as0 : 7; if (mtfv[i] != want) ok = 0; }
+    V_ASSERT(ok, "groups: the last group is completed with the dummy symbol, nothing else is written (no write beyond the group)"); }
+  if (nm0 == GC_NM_MAX) V_CANARY("largest stored block");
+}
 #ifdef VERIF_REPLAY
 int main(void) { HARNESS(); puts("REPLAY-PASS"); return 0; }
 #endif
